@@ -105,6 +105,9 @@ func main() {
 			props.KnownActive[k] = true
 		}
 	}
+	if v := os.Getenv("VERIF_C19B_COUNTERS"); v != "" {
+		fmt.Sscan(v, &props.C19BCounters)
+	}
 	sched.WatchdogLimit = *wd
 	sched.InstallHooks()
 
